@@ -2,7 +2,7 @@
    short_width, seq_fmt, short_fmt) agrees with what is REGENERATED from the size() methods and the `sizes` / `formats`
    dictionaries of asm.py (Gen/Sizes.v, Gen/Pseudo.v big_pseudos).  An edit of a size() method or of a table changes the generated
    file and breaks this proof. *)
-From Coq Require Import ZArith List Bool String.
+From Coq Require Import ZArith List Bool String Lia.
 From BB Require Import Base.PyBase Gen.Pseudo Gen.Sizes Model.Items Model.Encode Model.Passes.
 Import ListNotations.
 Open Scope Z_scope.
@@ -57,3 +57,19 @@ Theorem formats_match_sizes :
                                 | Some a, Some b => Z.eqb a (snd p) && Z.eqb b (snd p) | _, _ => false end
                     | None => false end) short_sizes = true.
 Proof. split; vm_compute; reflexivity. Qed.
+
+(* Align.resolution_size, TRANSLATED from the source (Gen/Sizes.v align_resolution_size): it is what the alignment pass of the
+   model computes, and it is the documented minimal padding (N - p mod N) mod N for every N >= 1 and every position *)
+Theorem align_rule_from_source l n pos ls :
+  align_rule l (IAlign n) pos ls =
+  if n =? 0 then Fail (PRaw OtherExn)
+  else let p := align_resolution_size n pos in if p =? 0 then Done [] else Done [IZeros p].
+Proof. reflexivity. Qed.
+Theorem resolution_size_spec n pos : 1 <= n -> align_resolution_size n pos = (n - pos mod n) mod n.
+Proof.
+  intro Hn. unfold align_resolution_size. cbv zeta.
+  pose proof (Z.mod_pos_bound pos n ltac:(lia)) as Hr.
+  destruct (Z.eqb_spec (n - pos mod n) n) as [E|E].
+  - assert (pos mod n = 0) by lia. replace (n - pos mod n) with n by lia. rewrite Z_mod_same_full. reflexivity.
+  - symmetry. apply Z.mod_small. lia.
+Qed.
